@@ -7,7 +7,7 @@ import props2
 for d in json.load(sys.stdin):
     try:
         h = pyham.Ham(tree_file=d['nwk'], hog_file=d['xml'], orthoXML_as_string=True, use_internal_name=d['own'])
-        c, _ = props2.canon_analysis(h)
+        c, _ = props2.canon_analysis(h, with_orders=True)
         print(json.dumps(c, sort_keys=True))
     except Exception as e:      # noqa
         print(json.dumps(dict(error=type(e).__name__)))
